@@ -198,6 +198,9 @@ impl Sut for VClock<A> {
     fn op_sx(op: &Dot<A>) -> String {
         sx(op)
     }
+    fn op_roundtrip(op: &Self::Op) -> &'static str {
+        crate::json_roundtrip(op)
+    }
     fn op_actor(op: &Dot<A>) -> Option<u64> {
         Some(op.actor)
     }
@@ -297,6 +300,9 @@ impl Sut for GCounter<A> {
     fn op_sx(op: &Dot<A>) -> String {
         sx(op)
     }
+    fn op_roundtrip(op: &Self::Op) -> &'static str {
+        crate::json_roundtrip(op)
+    }
     fn op_actor(op: &Dot<A>) -> Option<u64> {
         Some(op.actor)
     }
@@ -366,6 +372,9 @@ impl Sut for PNCounter<A> {
     fn op_sx(op: &Self::Op) -> String {
         sx(op)
     }
+    fn op_roundtrip(op: &Self::Op) -> &'static str {
+        crate::json_roundtrip(op)
+    }
     fn op_actor(op: &Self::Op) -> Option<u64> {
         Some(op.dot.actor)
     }
@@ -420,6 +429,9 @@ impl Sut for GSet<u64> {
     }
     fn op_sx(op: &u64) -> String {
         op.to_string()
+    }
+    fn op_roundtrip(op: &Self::Op) -> &'static str {
+        crate::json_roundtrip(op)
     }
     fn op_actor(_op: &u64) -> Option<u64> {
         None
@@ -476,7 +488,10 @@ macro_rules! reg_sut {
             fn op_sx(op: &u64) -> String {
                 op.to_string()
             }
-            fn op_actor(_op: &u64) -> Option<u64> {
+            fn op_roundtrip(op: &Self::Op) -> &'static str {
+        crate::json_roundtrip(op)
+    }
+    fn op_actor(_op: &u64) -> Option<u64> {
                 None
             }
         }
@@ -545,6 +560,9 @@ impl Sut for LWWReg<u64, u64> {
     }
     fn op_sx(op: &Self::Op) -> String {
         sx(op)
+    }
+    fn op_roundtrip(op: &Self::Op) -> &'static str {
+        crate::json_roundtrip(op)
     }
     fn op_actor(_op: &Self::Op) -> Option<u64> {
         None
@@ -697,6 +715,9 @@ impl Sut for Orswot<u64, A> {
     fn op_sx(op: &Self::Op) -> String {
         sx(op)
     }
+    fn op_roundtrip(op: &Self::Op) -> &'static str {
+        crate::json_roundtrip(op)
+    }
     fn op_actor(op: &Self::Op) -> Option<u64> {
         match op {
             orswot::Op::Add { dot, .. } => Some(dot.actor),
@@ -788,6 +809,9 @@ impl Sut for MVReg<u64, A> {
     }
     fn op_sx(op: &Self::Op) -> String {
         sx(op)
+    }
+    fn op_roundtrip(op: &Self::Op) -> &'static str {
+        crate::json_roundtrip(op)
     }
     fn op_actor(op: &Self::Op) -> Option<u64> {
         let _ = op;
@@ -931,6 +955,7 @@ macro_rules! map_sut {
                 t.call(concat!($name, ".reset"), &[sx(&r1), sx(&c2), sx(&r2)]);
                 reset_laws!(self, &c1, &c2, t);
                 t.call(concat!($name, ".validate_merge"), &[sx(self), sx(o), vm_sx(self.validate_merge(o))]);
+                t.call(concat!($name, ".validate_merge"), &[sx(o), sx(self), vm_sx(o.validate_merge(self))]);
                 serde_rt($name, self, t);
             }
             fn sx(&self) -> String {
@@ -939,7 +964,10 @@ macro_rules! map_sut {
             fn op_sx(op: &Self::Op) -> String {
                 sx(op)
             }
-            fn op_actor(op: &Self::Op) -> Option<u64> {
+            fn op_roundtrip(op: &Self::Op) -> &'static str {
+        crate::json_roundtrip(op)
+    }
+    fn op_actor(op: &Self::Op) -> Option<u64> {
                 match op {
                     map::Op::Up { dot, .. } => Some(dot.actor),
                     _ => None,
@@ -1143,6 +1171,9 @@ impl Sut for GList<u64> {
     fn op_sx(op: &Self::Op) -> String {
         sx(op)
     }
+    fn op_roundtrip(op: &Self::Op) -> &'static str {
+        crate::json_roundtrip(op)
+    }
     fn op_actor(_op: &Self::Op) -> Option<u64> {
         None
     }
@@ -1302,6 +1333,9 @@ impl Sut for List<u64, A> {
     fn op_sx(op: &Self::Op) -> String {
         sx(op)
     }
+    fn op_roundtrip(op: &Self::Op) -> &'static str {
+        crate::json_roundtrip(op)
+    }
     fn op_actor(op: &Self::Op) -> Option<u64> {
         guard(|| op.dot().actor)
     }
@@ -1388,6 +1422,9 @@ impl Sut for MR {
     }
     fn op_sx(op: &Self::Op) -> String {
         format!("(N {} {})", sx(op), sx(&op.hash()))
+    }
+    fn op_roundtrip(op: &Self::Op) -> &'static str {
+        crate::json_roundtrip(op)
     }
     fn op_actor(_op: &Self::Op) -> Option<u64> {
         None
